@@ -831,7 +831,7 @@ def gen_session(rng, i, quick):
             qs.append({"o": "bulk", "q": q, "s": (rand_state(sum(s)) if rng.random() < 0.6 else s) if q == "allprob_s" else None})
         return qs
 
-    n1 = rng.choice([2, 2, 3, 1])
+    n1 = rng.choice([2, 2, 3, 1] if variant != "fewer" else [2, 2, 3, 3])   # ('fewer': n1 - 1 must stay a photon number >= 1)
     s1 = rand_state(n1)
     if variant == "nomask":
         # no mask at all in the first part: nothing but set_circuit itself stands between the iterator cache of the
